@@ -368,13 +368,16 @@ func (n *Node) Deliver(ctx context.Context, topic string, data []byte) Delivery 
 	}
 	msg := &pubsub.Message{Message: &pubsubpb.Message{Data: data, Topic: &topic}}
 	// P2PMessaging.handle (p2p/messaging.go): unmarshal, Handle, send every returned message
-	m, _, err := p2p.UnmarshalPubsubMessage(msg)
+	m, traceCtx, err := p2p.UnmarshalPubsubMessage(msg)
 	if err != nil {
 		d.HandleErr = err
 		return d
 	}
 	d.Handled = true
-	outs, herr := n.P2P.Handle(ctx, m)
+	// the receive span, as handle opens it (it reads the envelope's trace context when tracing is on)
+	hctx, endSpan := n.P2P.VerifNewSpanForReceive(ctx, traceCtx, msg, m)
+	defer endSpan()
+	outs, herr := n.P2P.Handle(hctx, m)
 	if herr != nil && herr != p2p.ErrNoMessageHandler {
 		d.HandleErr = herr
 		return d
